@@ -95,7 +95,7 @@ def extract_ang(st):
         try:
             out[key] = fn()
             st[f"ang.{key}"] = "extracted"
-        except (NotFound, ValueError, SyntaxError, KeyError, TypeError, IndexError) as e:
+        except Exception as e:  # any source shape the extractor does not understand = "not extracted", never a crash
             out[key] = default
             st[f"ang.{key}"] = f"not extracted: {type(e).__name__} {e}"
 
@@ -328,7 +328,7 @@ def extract_ctf(st):
         try:
             out[key] = fn()
             st[f"ctf.{key}"] = "extracted"
-        except (NotFound, ValueError, SyntaxError, KeyError, TypeError, IndexError) as e:
+        except Exception as e:  # any source shape the extractor does not understand = "not extracted", never a crash
             out[key] = default
             st[f"ctf.{key}"] = f"not extracted: {type(e).__name__} {e}"
 
@@ -432,7 +432,7 @@ def extract_bruker(st):
         try:
             out[key] = fn()
             st[f"bruker.{key}"] = "extracted"
-        except (NotFound, ValueError, SyntaxError, KeyError, TypeError, IndexError, AttributeError) as e:
+        except Exception as e:
             out[key] = default
             st[f"bruker.{key}"] = f"not extracted: {type(e).__name__} {e}"
 
@@ -579,7 +579,7 @@ def extract_emsoft(st):
         try:
             out[key] = fn()
             st[f"emsoft.{key}"] = "extracted"
-        except (NotFound, ValueError, SyntaxError, KeyError, TypeError, IndexError, AttributeError) as e:
+        except Exception as e:
             out[key] = default
             st[f"emsoft.{key}"] = f"not extracted: {type(e).__name__} {e}"
 
@@ -652,7 +652,7 @@ def extract_h5(st):
         try:
             out[key] = fn()
             st[f"h5.{key}"] = "extracted"
-        except (NotFound, ValueError, SyntaxError, KeyError, TypeError, IndexError, AttributeError) as e:
+        except Exception as e:
             out[key] = default
             st[f"h5.{key}"] = f"not extracted: {type(e).__name__} {e}"
 
